@@ -1942,6 +1942,11 @@ where
                 }
             }
 
+            // from_str_radix would also accept a leading sign.
+            if !s.chars().all(|c| c.is_ascii_hexdigit()) {
+                self.input = orig_input;
+                return None;
+            }
             match u32::from_str_radix(&s, 16) {
                 Ok(u) => {
                     if u > 0x10_FFFF {
